@@ -15,7 +15,7 @@ static const char* NAMES[] = {"push", "remove", "top", "pop", "pop", "setprio", 
 
 template <class Heap>
 static void run(Out& out, int variant, int nkeys, std::istringstream& is) {
-    Heap hp;
+    Heap hp{typename Heap::compare_type(1)};        // armed comparator object: see VF_Stateful
     auto emit = [&](Ev& ev) {
         std::vector<long long> drain;
         Heap c = hp;
@@ -67,16 +67,16 @@ int main(int argc, char** argv) {
         for (int i = 0; i < nkeys; ++i) is >> g_prio[i];
         using namespace tlx;
         switch (variant) {
-        case 0: run<DAryAddressableIntHeap<uint32_t, 1, PrioLess>>(out, variant, nkeys, is); break;
-        case 1: run<DAryAddressableIntHeap<uint32_t, 1, PrioGreaterMirror>>(out, variant, nkeys, is); break;
-        case 2: run<DAryAddressableIntHeap<uint32_t, 2, PrioLess>>(out, variant, nkeys, is); break;
-        case 3: run<DAryAddressableIntHeap<uint32_t, 2, PrioGreaterMirror>>(out, variant, nkeys, is); break;
-        case 4: run<DAryAddressableIntHeap<uint32_t, 3, PrioLess>>(out, variant, nkeys, is); break;
-        case 5: run<DAryAddressableIntHeap<uint32_t, 3, PrioGreaterMirror>>(out, variant, nkeys, is); break;
-        case 6: run<DAryAddressableIntHeap<uint32_t, 4, PrioLess>>(out, variant, nkeys, is); break;
-        case 7: run<DAryAddressableIntHeap<uint32_t, 5, PrioGreaterMirror>>(out, variant, nkeys, is); break;
-        case 8: run<DAryAddressableIntHeap<uint32_t, 8, PrioLess>>(out, variant, nkeys, is); break;
-        default: run<DAryAddressableIntHeap<uint32_t, 6, PrioGreaterMirror>>(out, variant, nkeys, is); break;
+        case 0: run<DAryAddressableIntHeap<uint32_t, 1, VF_Stateful<PrioLess>>>(out, variant, nkeys, is); break;
+        case 1: run<DAryAddressableIntHeap<uint32_t, 1, VF_Stateful<PrioGreaterMirror>>>(out, variant, nkeys, is); break;
+        case 2: run<DAryAddressableIntHeap<uint32_t, 2, VF_Stateful<PrioLess>>>(out, variant, nkeys, is); break;
+        case 3: run<DAryAddressableIntHeap<uint32_t, 2, VF_Stateful<PrioGreaterMirror>>>(out, variant, nkeys, is); break;
+        case 4: run<DAryAddressableIntHeap<uint32_t, 3, VF_Stateful<PrioLess>>>(out, variant, nkeys, is); break;
+        case 5: run<DAryAddressableIntHeap<uint32_t, 3, VF_Stateful<PrioGreaterMirror>>>(out, variant, nkeys, is); break;
+        case 6: run<DAryAddressableIntHeap<uint32_t, 4, VF_Stateful<PrioLess>>>(out, variant, nkeys, is); break;
+        case 7: run<DAryAddressableIntHeap<uint32_t, 5, VF_Stateful<PrioGreaterMirror>>>(out, variant, nkeys, is); break;
+        case 8: run<DAryAddressableIntHeap<uint32_t, 8, VF_Stateful<PrioLess>>>(out, variant, nkeys, is); break;
+        default: run<DAryAddressableIntHeap<uint32_t, 6, VF_Stateful<PrioGreaterMirror>>>(out, variant, nkeys, is); break;
         }
     }
     out.flush();
